@@ -207,6 +207,8 @@ def gen_cases(tier, seed):
         add("upgrad", "canon-frconf", 3, 3, 2, "light", first=40)
         add("upgrad", "generic-fullrank", 3, 4, 2, "light", first=4)
     add("upgrad", "dense-fullrank", 2, 3, 2, "light")
+    for k_ in range(2):
+        cases.append(dict(fam="native-seed", k=k_, seed=seed))
     for (m_, n_) in ((2, 2), (2, 3), (3, 3)):
         add("upgrad", "illcond", m_, n_, 1, "mild")
     return cases
@@ -408,6 +410,44 @@ def _run_pcgrad(case, res):
         res["execs"] += rn.execs
 
 
+def _run_native_seed(case, res):
+    """PCGrad and Random under torch.manual_seed (no replayed draws), one instance per aggregator: the three calls of the identity are made
+    under the same seed. Added after a seeded change - PCGrad consuming draws only for rows that have a conflict, so that the random stream
+    depends on the sign of rounding noise - ended as a harness fault of the replay-based family. The matrices contain a conflict-free row
+    that is EXACTLY orthogonal to another one, and rows with two conflicting partners; the scalings are not powers of two."""
+    import torch
+    from torchjd import aggregation as T
+
+    mats_ = [np.array([[1.0, 2.0, 3.0, 0.0], [3.0, 0.0, -1.0, 0.0], [1.0, 0.0, 1.0, -2.0], [-1.0, 1.0, 0.0, 1.0]]),
+             np.array([[1.0, 1.0, 0.0], [1.0, -1.0, 0.0], [-1.0, 0.0, 1.0], [0.0, -1.0, -1.0]])]
+    J = mats_[case["k"]]
+    m = J.shape[0]
+    c1s = [tuple(A.L1[(i + r) % 3] for i in range(m)) for r in range(3)] + [tuple(0.3 * (i + 1) for i in range(m)), tuple(0.7 ** i for i in range(m))]
+    for name, agg in (("PCGrad", T.PCGrad()), ("Random", T.Random())):
+        for c1 in c1s:
+            for c2 in (tuple([1.0] * m), c1[::-1]):
+                for (a, b) in AB:
+                    c0 = _c0(c1, c2, a, b)
+                    for z in range(3):
+                        xs = []
+                        for c in (c0, c1, c2):
+                            torch.manual_seed(z)
+                            res["execs"] += 1
+                            xs.append(agg(torch.tensor(np.array(c)[:, None] * J, dtype=torch.float64)).numpy())
+                        S = max(A.sigma_max(np.array(c)[:, None] * J) for c in (c0, c1, c2))
+                        err = float(np.abs(xs[0] - a * xs[1] - b * xs[2]).max())
+                        tol = 1e-9 * S
+                        ok = f"native-seed:{name}"
+                        res["maxima"][ok] = max(res["maxima"].get(ok, 0.0), err / tol)
+                        res["counters"]["evaluations"] += 1
+                        res["nontrivial"] += 1
+                        if not (err <= tol):
+                            res["viol"].append(dict(sig=f"nonlinear:{name}:native-seed", cls=f"nonlinear:{name}:native-seed",
+                                                    msg=f"{name} manual_seed({z}) J={J.tolist()} c1={c1} c2={c2} a={a} b={b}: A(c0)={xs[0].tolist()} "
+                                                        f"a*A(c1)+b*A(c2)={(a * xs[1] + b * xs[2]).tolist()} err/tol={err / tol:.3g}"[:600]))
+        res["outcomes"].add(digest([name, case["k"]]))
+
+
 def _run_random(case, res):
     from torchjd import aggregation as T
 
@@ -553,6 +593,8 @@ def run_case(case):
         _run_pcgrad(case, res)
     elif fam == "random":
         _run_random(case, res)
+    elif fam == "native-seed":
+        _run_native_seed(case, res)
     elif fam == "upgrad":
         _run_upgrad(case, res)
     else:
